@@ -641,7 +641,7 @@ pub fn run(ctx: &Ctx) -> Verdict {
     ];
     v.subs.push(super::replay_corpus(ctx));
     let worker = std::cell::RefCell::new(Worker::new("c13"));
-    let n = ctx.tier.pick(6_000, 120_000);
+    let n = ctx.tier.pick(6_000, 200_000);
     let (mt, mp) = match ctx.tier {
         vcore::Tier::Quick => (4, 200),
         vcore::Tier::Thorough => (8, 1500),
